@@ -788,6 +788,27 @@ def run_case(cls, params, rec):
 				d["name"] = ["peak%d" % i for i in range(len(case["loci"]))]
 			return pandas.DataFrame(d)
 
+		# call history: an earlier call on the same files and settings with
+		# OTHER input loci (whatever it caches or leaves behind must not
+		# influence the judged call)
+		if case["random_state"] % 3 == 0:
+			rp = gen.pyrng(ID, "prior", case["random_state"], W)
+			prior = []
+			for c_, seq_ in case["genome"].items():
+				nt_ = len(seq_) // W
+				for t_ in rp.sample(range(nt_), min(nt_, max(1, nt_ // 3))):
+					prior.append((c_, t_ * W + 2, t_ * W + W - 1))
+			if prior:
+				gen.call(extract_matching_loci, pandas.DataFrame({"chrom":
+					[l[0] for l in prior], "start": [l[1] for l in prior],
+					"end": [l[2] for l in prior]}), fa, in_window=W,
+					out_window=O, max_n_perc=case["max_n"],
+					gc_bin_width=case["w"], bigwig=bwp,
+					signal_beta=case["beta"], chroms=None if case["chroms"]
+					is None else list(case["chroms"]),
+					random_state=case["random_state"], n_jobs=1,
+					verbose=False)
+				rec.count("prior_calls_with_other_loci")
 		calls = [("first", 1, 11), ("repeat", 1, 22)]
 		if case["nj"] > 1:
 			calls.append(("n_jobs", case["nj"], 33))
